@@ -386,6 +386,48 @@ def _bfs(ctx, p, b, cont, c, r_bfs):
                 for n in bt:
                     if n[0] == 'index':
                         marks.append((bi, n[2]))
+    # the search state (work list, visited marks, parent map) belongs to one query: it is created in the query, not kept in a
+    # field of the planner (marks left by a query that ended early - a timeout - make milestones invisible to the next one)
+    def on_self(ts):
+        # the place itself is (an element of) a field of `self`: top-level nodes only, not what the value was computed from
+        for q in strip_clone(ts):
+            while q[0] == 'index' and len(q[1]) == 1:
+                q = next(iter(q[1]))
+            if q[0] == 'field' and q[1] and all(m[0] == 'param' and m[1] == 1 for m in q[1]):
+                return True
+        return False
+    kept = []
+    for (mb, mk) in marks:
+        for st in b.blocks[mb]['stmts']:
+            if st['k'] == 'assign' and st['place']['p'] == ['deref'] and st['rv']['k'] == 'use' and 'const' in st['rv']['op'] and \
+                    st['rv']['op']['const'].get('val') is True:
+                bt = fn.place_terms({'l': st['place']['l'], 'p': []}, (mb, 0), mut_kills=False)
+                if any(n[0] == 'index' and on_self(n[1]) for n in bt):
+                    kept.append('the visited marks')
+    for qid in qids:
+        if on_self(qid):
+            kept.append('the work list')
+    for (mb, mt) in map_ins:
+        if on_self(fn.arg_terms(mt, 0, mb)):
+            kept.append('the parent map')
+    if kept:
+        # a buffer that is kept but emptied again at the start of every query is no state: a `clear` / `fill` / fresh value on a
+        # field of the planner that every dequeue is dominated by
+        dom = fn.dominators()
+        resets = set()
+        for rb, rt in b.calls():
+            pth = rt['func'].get('path', '') or ''
+            if pth.endswith(('::clear', '::fill', '::truncate')) and rt['args'] and on_self(fn.arg_terms(rt, 0, rb)):
+                resets.add(rb)
+        for rb, blk in enumerate(b.blocks):
+            for st in blk['stmts']:
+                if st['k'] == 'assign' and st['place']['l'] == 1 and [e for e in st['place']['p'] if e != 'deref'] and st['rv']['k'] in ('use', 'agg'):
+                    resets.add(rb)
+        deq_blocks = [bi for bi, _t in outs]
+        if resets and deq_blocks and all(any(rb in dom.get(db, ()) for rb in resets) for db in deq_blocks):
+            kept = []
+    for what in dict.fromkeys(kept):
+        probs.append('%s of the search live in a field of the planner: what one query leaves there (on a timeout, say) is seen by the next' % what)
     loops = fn.loops()
     search = [L for L in loops if any(bi in L['body'] for bi, _t in outs)]
     for (bi, t) in ins:
